@@ -5,6 +5,7 @@ from core import MC, Shard
 import drv_calendar
 import drv_computus
 import drv_leap
+import drv_angle
 
 YMIN, YMAX = -4712, 6000
 
@@ -173,4 +174,31 @@ def plan_C10(tier, seed):
                      "JDNOf/civil calendar from Calendar.tla (model-checked in C01)"])
 
 
-PLANS = {"C10": plan_C10, "C01": plan_C01, "C16": plan_C16, "C19": plan_C19}
+def _nt_sexa(ev):
+    return (ev["k"], ev["x"], ev["ra"], ev.get("fancy"), ev.get("nd"))
+
+
+def plan_C04(tier, seed):
+    T = ("Trace_Sexa", "Trace.cfg")
+    nsh, per = (16, 250) if tier == "quick" else (64, 1500)
+    sh = [Shard("sexa_%02d" % i, drv_angle.gen_sexa, dict(seed=seed, n=per, shard=i), *T) for i in range(nsh)]
+    degs = [0, 1, 59, 179, 180, 358, 359]
+    offs = list(range(-25, 26)) if tier == "thorough" else [-6, -5, -4, -1, 0, 1, 4, 5, 6]
+    for n in (0, 1, 2):
+        for d in degs:
+            sh.append(Shard("grid_n%d_d%03d" % (n, d), drv_angle.gen_sexa_grid, dict(n=n, degs=[d], offs=offs), *T))
+    return dict(
+        mc=[MC("MC_Sexa", "MC_Sexa.cfg", workers=8, heap="3g", note="integer carry model of dms_str over all carry windows, n=0..2")],
+        shards=sh, level="model_checking", exhaustive=False, nontrivial=_nt_sexa,
+        rule="TLC checks the integer carry model of dms_str on every value within +-25 fine units of every whole minute of 7 "
+             "degrees x 5 seconds values, n_dec 0..2 (321,300 states): no 60, half-unit read-back. Conformance: (a) the same "
+             "grid values are printed by the real Angle.dms_str (both styles) and judged; (b) seeded values in (-360,360) "
+             "concentrated within 1e-12, 1-3 ulp and 0.4/0.5/0.6 last-decimal units of whole seconds/minutes/degrees (hours for "
+             "RA), of 0 and +-360, plus denormals and uniform random: dms_tuple, ra_tuple, dms_str, ra_str x fancy/colon x "
+             "n_dec in {-1,0,1,2,3,4,6,9,12}. The printed string is tokenised as text; recombination, range, sign and "
+             "half-unit read-back modulo 360/24 are evaluated by TLC in exact fixed point. Distinct case = (value, ra, style, n_dec).",
+        assumptions=["the printed degree/hour field may show a full turn (24h) after a rounding carry: the statement only asks "
+                     "for read-back modulo 24 h, so only the tuple form is required to stay below 24"])
+
+
+PLANS = {"C04": plan_C04, "C10": plan_C10, "C01": plan_C01, "C16": plan_C16, "C19": plan_C19}
